@@ -183,12 +183,14 @@ theorem chain_dead (m : Nat) (hm : 1 ≤ m) (hl : liveUpTo prog m) (he : (chain 
     · rw [chain_exec]
       exact (ih (by omega)).step _
 
-variable (short : ∀ k, liveUpTo prog (k + 1) → (chain prog k).exec.trActive = true → (chain prog k).exec.trDuration ≤ 16777216)
+variable (H : Nat)
+variable (short : ∀ k, liveUpTo prog (k + 1) → (chain prog k).current ≤ H → (chain prog k).exec.trActive = true →
+  (chain prog k).exec.trDuration ≤ 16777216)
 include short
 
 /-- **the fresh player shows the earliest chain point of all**: whatever chain point another player shows at the same
 timestamp, the fresh player's is not later -/
-theorem fresh_least (t fuel : Nat) (r0 : Player) (h : (Player.fresh prog).seek t fuel = .ok r0) :
+theorem fresh_least (t fuel : Nat) (htH : t ≤ H) (r0 : Player) (h : (Player.fresh prog).seek t fuel = .ok r0) :
     ∃ k0, At prog r0 k0 ∧ ∀ (r : Player) (k : Nat), At prog r k → r.current = t → k0 ≤ k := by
   obtain ⟨j0, hmin, hle, hr⟩ := fresh_seek_exact prog t fuel r0 h
   have hcur0 : r0.current = t := by rw [hr]; rfl
@@ -229,7 +231,7 @@ theorem fresh_least (t fuel : Nat) (r0 : Player) (h : (Player.fresh prog).seek t
         have : j0 = (j0 - 1) + 1 := by omega
         rw [this, chain_current]
         exact hmin (j0 - 1) (by omega)
-      obtain ⟨e1, e2⟩ := interior_step G.t hne (le_of_lt hcj) (by rw [← G.next_eq]; exact hlt) (short j0 hlive)
+      obtain ⟨e1, e2⟩ := interior_step G.t hne (le_of_lt hcj) (by rw [← G.next_eq]; exact hlt) (short j0 hlive (le_trans (le_of_lt hcj) htH))
       refine ⟨j0, ⟨hj1, hlive.mono (by omega), by rw [hcur0]; exact le_of_lt hcj, ?_, fun _ => ⟨Or.inl (by rw [hcur0]; exact hlt), hlive⟩⟩, ?_⟩
       · rw [hcur0, hr]
         show obs3 (step (chain prog j0).exec t) = _
